@@ -32,6 +32,12 @@ def run(ctx):
     ctx.rule('C12.d-check-before-use', 'the accessor index is range-checked before any arithmetic or indexing')
     ctx.rule('C12.e-witness', 'compile-fail witness: no add while a result is alive; twin with drop compiles')
     ctx.rule('C06.a-sources', 'integer parameters of the result accessors are taint sources')
+    ctx.rule('C12.f-repacked-is-exposed', 'the range of shards converted back from the working layout is exactly the range the accessor exposes, so every exposed shard has its plain byte layout (clause shared with C04.c)')
+    from . import c04 as c04_
+    ctx.guard('C12.analysable', ctx.shared, {'C04.c-range-agreement': 'C12.f-repacked-is-exposed'}, c04_.range_agreement, ctx, ctx.facts(cfgs[0]), cfgs[0])
+    ctx.rule('C12.g-round-input-fully-defined', 'what a round hands to its truncated transforms is fully written in that round (tail zeroed): the recovery shards of a new round on the same object do not depend on the round before (clause shared with C05.c)')
+    from . import c05 as c05_
+    ctx.guard('C12.analysable', ctx.shared, {'C05.c-truncated-ifft-zeroed': 'C12.g-round-input-fully-defined'}, c05_.ifft_rule, ctx, ctx.facts(cfgs[0]), cfgs[0])
     for cfg in cfgs:
         facts = ctx.facts(cfg)
         ctx.guard('C12.analysable', accessors, ctx, facts, cfg)
